@@ -17,7 +17,8 @@ out = ["# Independently written breaking changes and which checks catch them", "
        "repository (nothing from /verif). `tools/seed_eval.py` confirmed each one in a scratch worktree (demo passes",
        "without the change, fails with it; the pinned suite passes with it), then applied it to /repo, ran the quick",
        "tier of the checks with VERIF_SEED=0 and reverted: all 17 at the first evaluation; at re-evaluations (after",
-       "the checks or the tree changed) the targeted check, the checks that caught it before, C01 and C02 - so a",
+       "the checks or the tree changed, and for rounds C and D) the targeted check, the checks that caught it before,",
+       "C01 and C02 (plus the check named in DESIGN.md where the targeted one cannot see the change) - so a",
        "shorter list in the latest column does not mean that the other checks stopped catching it. Patches that no",
        "longer applied after later fix commits were ported (`patch.orig.diff` keeps the author's version). `history`",
        "lists earlier evaluations of the same change against older versions of the checks (what was missed before a",
